@@ -198,6 +198,65 @@ func threadSites(ts []string) []string {
 	return out
 }
 
+// newConfigScenario: a configuration that adds a node to the pool is created after Close has returned, or
+// concurrently with Close (adversary thread). Whatever the outcome of the creation, nothing the manager
+// created may survive: every connection is closed and no client goroutine is alive once Close has returned
+// and the creation has finished.
+func newConfigScenario(concurrent bool) func() {
+	return func() {
+		w := world.New(world.Opts{N: 2, Window: 4})
+		if w.Cfg == nil {
+			return
+		}
+		w.Handle = func(h *world.HCtx) world.Reply { return world.Reply{} }
+		name := fmt.Sprintf("close/new-configuration/concurrent=%v", concurrent)
+		var cfg2 *dev.Configuration
+		var cerr error
+		created := false
+		create := func() {
+			cfg2, cerr = w.Mgr.NewConfiguration(w.Spec, w.Cfg.WithNewNodes(gorums.WithNodeList([]string{"127.0.0.1:9100"})))
+			created = true
+		}
+		closed := false
+		if concurrent {
+			mc.GoNamed("creator", create)
+			mc.GoLow("closer", func() { w.Mgr.Close(); closed = true })
+		} else {
+			w.Mgr.Close()
+			closed = true
+			create()
+		}
+		mc.Quiesce()
+		for i := 0; i < 4 && mc.FireTimers(nil) > 0; i++ {
+			mc.Quiesce()
+		}
+		if !closed || !created {
+			fail("C12/close-blocked", "new-configuration", "%s: Close returned=%v, NewConfiguration returned=%v", name, closed, created)
+		}
+		if !concurrent && cerr == nil {
+			// not required by the statement, but a configuration on a closed manager must at least be inert
+			c := w.NewCall("QuorumCall")
+			c.Cfg = cfg2
+			c.Ctx = context.Background()
+			c.Verdict = func(inv *world.QFInv) { inv.Quorum = len(inv.Keys) >= 3 }
+			w.Start(c)
+			mc.Quiesce()
+			if !c.Returned {
+				fail("C12/post-close-blocks", "new-configuration", "%s: a quorum call on a configuration created after Close has not returned", name)
+			}
+		}
+		if lt := clientLibThreads(); len(lt) > 0 {
+			fail("C12/goroutine-left", "new-configuration "+strings.Join(threadSites(lt), ","), "%s: client library goroutines still alive after Close: %v", name, lt)
+		}
+		for i, cn := range w.FW.Conns {
+			if !cn.Closed() {
+				fail("C12/connection-left", "new-configuration", "%s: connection %d is still open after Close (NewConfiguration error: %v)", name, i, cerr)
+			}
+		}
+		mc.Outcome("created-err=%v", cerr != nil)
+	}
+}
+
 func noConnectScenario() {
 	mc.NoBranch(true)
 	w := &world.W{}
@@ -259,13 +318,19 @@ func closeInstances(tier string) []Instance {
 			}
 		}
 	}
+	out = append(out, Instance{Name: "close/new-configuration/after-close", Bound: 1, Root: newConfigScenario(false)})
+	cb := 1
+	if thorough(tier) {
+		cb = 2
+	}
+	out = append(out, Instance{Name: "close/new-configuration/concurrent-with-close", Bound: cb, Root: newConfigScenario(true)})
 	out = append(out, Instance{Name: "close/no-connect-manager", Bound: 0, Root: noConnectScenario})
 	return out
 }
 
 func init() {
 	register(&Check{ID: "C12",
-		Rule:        "9 in-flight call variants with never-ending contexts (optionally two calls, both unanswered or the first one answered) x send buffer {0,1,2} x node state {connected, down at creation, crashed with the receiver in back-off, blocking dial timed out at creation and the server came up later} x handler {never answers, answers} x 1 or 2 concurrent Close calls as free-running threads placed by the explorer at every instant within the deviation bound (call queued, being written, awaiting replies), then a call of a rotating type issued after Close, then a further sequential Close; plus Close on a WithNoConnect manager; back-off timers are fired to a horizon before each oracle; oracle: no panic, every Close returns, every in-flight and post-Close call returns (with an error where the API has one), no client library goroutine is alive and every connection is closed at the end; an outcome is (instance, completion summary)",
+		Rule:        "9 in-flight call variants with never-ending contexts (optionally two calls, both unanswered or the first one answered) x send buffer {0,1,2} x node state {connected, down at creation, crashed with the receiver in back-off, blocking dial timed out at creation and the server came up later} x handler {never answers, answers} x 1 or 2 concurrent Close calls as free-running threads placed by the explorer at every instant within the deviation bound (call queued, being written, awaiting replies), then a call of a rotating type issued after Close, then a further sequential Close; plus Close on a WithNoConnect manager; plus a configuration that adds a node to the pool created after Close or concurrently with it (nothing may survive); back-off timers are fired to a horizon before each oracle; oracle: no panic, every Close returns, every in-flight and post-Close call returns (with an error where the API has one), no client library goroutine is alive and every connection is closed at the end; an outcome is (instance, completion summary)",
 		Gen:         closeInstances,
 		Assumptions: []string{"'within bounded time' is decided in its eventual untimed form: after firing the armed library timers 4 rounds", "server-side goroutines (handlers that block forever by construction) are not counted as manager residue"},
 	})
